@@ -5,7 +5,8 @@
 //! every read with a SYMBOLIC number of bytes between 1 and what was asked for and is there (all chunkings).
 //! Claims, for the real function: (1) the result depends on the bytes only, never on the chunking: it is the decoding
 //! of the shortest prefix that is a complete UTF-8 character (or the error / end of input the byte string implies);
-//! (2) exactly that prefix has been consumed from the descriptor - no byte of what follows.
+//! (2) exactly that prefix has been consumed from the descriptor - no byte of what follows; (2') when the bytes are not a
+//! character, nothing beyond the first byte that shows it has been consumed (a later reader of the same input loses nothing).
 #![allow(dead_code, unused_imports)]
 use super::*;
 use std::cell::Cell;
@@ -79,7 +80,8 @@ fn fixed_random_state() -> std::hash::RandomState {
 enum Expect {
     Eof,
     Char(char, usize),
-    Invalid,
+    /// invalid: the first k bytes are the shortest prefix that cannot start a character (or the input ends in mid-character: k = all)
+    Invalid(usize),
 }
 fn expect(data: &[u8; 4], len: usize) -> Expect {
     if len == 0 {
@@ -91,14 +93,14 @@ fn expect(data: &[u8; 4], len: usize) -> Expect {
             Ok(s) => return Expect::Char(s.chars().next().unwrap(), k),
             Err(e) => {
                 if e.error_len().is_some() {
-                    return Expect::Invalid;
+                    return Expect::Invalid(k);
                 }
             }
         }
         k += 1;
     }
     // the input ends in the middle of a character
-    Expect::Invalid
+    Expect::Invalid(len)
 }
 
 fn run(len: usize) {
@@ -123,8 +125,9 @@ fn run(len: usize) {
             assert!(r == Ok(Some(c)), "the character does not depend on how the reads were chunked");
             assert!(consumed == k, "exactly the bytes of the character are consumed: what follows stays in the input");
         }
-        Expect::Invalid => {
+        Expect::Invalid(k) => {
             assert!(r.is_err(), "an invalid or truncated sequence is an error");
+            assert!(consumed <= k, "on an invalid sequence nothing beyond the first offending byte is consumed: what follows stays in the input");
         }
     }
     std::mem::forget(env);
